@@ -306,8 +306,8 @@ def check_one(inp):
         outs = []
         for seed in ('0', '1', '2', '7'):
             env = dict(os.environ, PYTHONHASHSEED=seed, REPLAY_CHILD='1')
-            pr = subprocess.run([sys.executable, __file__, json.dumps(dict(inp, dump=True))], capture_output=True,
-                                text=True, env=env)
+            pr = subprocess.run([sys.executable, __file__, '-'], input=json.dumps(dict(inp, dump=True)),
+                                capture_output=True, text=True, env=env)
             outs.append(pr.stdout[pr.stdout.find('DUMP:'):])
         if len(set(outs)) != 1:
             fail('file contents / hashes differ between interpreter hash seeds')
